@@ -336,6 +336,19 @@ ADD7 = {
 for _id, _t in ADD7.items():
     P[_id]["text"] += " " + _t
 
+ADD8 = {
+ "C01": "A function value that can be nil (the nil constant, or a helper that returns nil on some path) is not appended to a list whose consumer calls every element without a test, in a goroutine without recover (clause of unrecovered-goroutine); lock-released-on-every-exit also rejects an index/slice the prover cannot discharge inside a critical section whose Unlock is not deferred.",
+ "C02": "frame-bounds also covers tables of the listener's own indexed by a value read from the frame (scalar header fields followed into callees).",
+ "C03": "C09's lock-released-on-every-exit (including implicit panics inside non-deferred critical sections) is run for C03 as well.",
+ "C04": "A window of a buffered reader's own buffer (ReadSlice, Peek, Scanner.Bytes) and byte slices cut from it are not used after a later read from the same reader (rule borrowed-line-not-used-after-read).",
+ "C07": "rotateFile.pos is set from the end offset of the file taken over (Seek(0, SeekEnd) or Stat().Size()), zero for a file the function just created, or advanced by a count (rule position-is-file-size).",
+ "C09": "A helper goroutine that reports with a plain send on an unbuffered channel of its starter is received unconditionally, not in a select next to another arm (rule result-channel-not-abandoned).",
+ "C14": "StateTable.Add takes a slot in TIME-WAIT in the scan iteration that finds it, while Get returns the first match whatever its state (rule new-state-before-time-wait); the channel Socket.flush signals with a non-blocking send has capacity for the token (rule wakeup-not-lost, shared with C16).",
+ "C20": "A decoder table (map from uint16 to a function) of the raw listener is consulted with the datagram's destination port only (rule decoder-by-destination-port).",
+}
+for _id, _t in ADD8.items():
+    P[_id]["text"] += " " + _t
+
 PENDING = {
 }
 
